@@ -5,7 +5,7 @@ from vlib.harness import Check
 CHECK = Check(
     "C07",
     rule=(
-        "one ego-frame scene / tracker history (1-3 frames, manager filter + narrower critical filter, pass/fail "
+        "one ego-frame scene / tracker history (1-4 frames; independent scenes and consistent multi-frame tracks with id events, manager filter + narrower critical filter, pass/fail "
         "thresholds) evaluated twice through a real manager: objects expressed in base_link, and rendered into the "
         "map frame by the reference rigid transform with a generated ego pose per frame (translation up to 1e5 m, any "
         "yaw); detection and tracking tasks. Non-trivial = some frame has >=3 GTs, an object removed by a range "
@@ -24,8 +24,24 @@ def _cases(tier):
     return MG.manager_cases(tier, tasks=("detection", "tracking"), allow_map=False)
 
 
-@CHECK.given("ego_vs_map", _cases, quick=110, thorough=5000)
+def _tracking_cases(tier):
+    from checks import c05
+
+    return c05.tracking_histories(tier)
+
+
+@CHECK.given("ego_vs_map", _cases, quick=90, thorough=4000)
 def ego_vs_map(ctx, d):
+    _compare(ctx, d)
+
+
+@CHECK.given("ego_vs_map_tracking", _tracking_cases, quick=45, thorough=2500)
+def ego_vs_map_tracking(ctx, d):
+    """Consistent multi-frame tracks (persistent ids, switches, misses): MOTA / MOTP / ID switches in both frames."""
+    _compare(ctx, d)
+
+
+def _compare(ctx, d):
     import math
 
     a = MG.run_case(ctx, d, frame="base_link", what="add_frame_result(base_link)")
